@@ -11,6 +11,16 @@ E3 = "bounded exhaustive enumeration of inputs/programs/configurations executed 
 
 # pid -> (technique, level text, level note, design ref)
 CHECKS = {
+    "C09": (
+        E2,
+        "BFS over update histories (in/out of order, gaps, jumps beyond capacity, off-grid timestamps incl. half-period ties, "
+        "valid/None/NaN) of the real OrderedRingBuffer with list and numpy containers, capacities 1-5; dict reference model "
+        "compared in every state (content, rejection of old updates, count, gaps, oldest/newest, is_missing) and every index "
+        "pair and every datetime pair on the half-slot grid evaluated as window queries in every canonical state.",
+        "State dedup renames valid payload values (components never branch on them); off-grid endpoints accept either "
+        "neighbouring slot boundary.",
+        "DESIGN.md §3 C09",
+    ),
     "C03": (
         E3 + "; " + E2,
         "E3: every combination of up to 3-4 proposals (priority ties, preferred power and bounds on/inside/outside every interval "
